@@ -503,7 +503,7 @@ func (g *G) anyExpr(depth int, role string) *N {
 		return &N{K: KPropC, A: g.iterLit(depth - 1), Str: "A", Chain: Chain{Main: '.'}}
 	}
 	if g.p.Thoughtful && g.noBrace == 0 && g.t.Chance(1, 16) {
-		acc := []string{"val", "err?"}[g.t.Intn(2)]
+		acc := []string{"val", "err?", "err"}[g.t.Intn(3)]
 		return &N{K: KTry, A: g.intExpr(depth-1, "try/recv"), B: g.funcLit(1, nil, false, g.t.Chance(1, 2), depth, []string{"x"}), Str: acc}
 	}
 	if g.p.ChainW > 0 && g.t.Chance(1, 18) {
